@@ -68,4 +68,42 @@ pub fn serve(req: &[u8], t: Transport, bufsize: i64, app: AppKind, entry: Entry)
     ServeOut { out: m.out, result, write_calls: m.write_calls, flush_calls: m.flush_calls }
 }
 
+// ---- the same requests through the real binary -------------------------------------------------------------------------------------
+// Checks whose oracle only needs (request bytes -> response bytes) can send a share of their cases to the release binary over loopback:
+// accept loop, pool hand-over, TcpStream reads and writes are then part of what is judged. One server per worker thread and docroot.
+thread_local! {
+    static BINARY: std::cell::RefCell<Option<super::net::Server>> = std::cell::RefCell::new(None);
+    static BINARY_TROUBLE: std::cell::RefCell<Vec<String>> = std::cell::RefCell::new(vec![]);
+}
+
+/// Starts the binary with `docroot` as its working directory (2 workers, defaults otherwise); replaces a running one.
+pub fn binary_start(docroot: &std::path::Path) -> Result<(), String> {
+    binary_stop();
+    let s = super::net::Server::start(&super::net::ServerOpts::new(docroot, 2))?;
+    BINARY.with(|b| *b.borrow_mut() = Some(s));
+    Ok(())
+}
+pub fn binary_stop() { BINARY.with(|b| *b.borrow_mut() = None); }
+/// Connection failures and time-outs seen since the last call (the affected cases were judged on the in-process route instead).
+pub fn binary_trouble() -> Vec<String> { BINARY_TROUBLE.with(|t| std::mem::take(&mut *t.borrow_mut())) }
+
+/// None when no binary is running on this thread, or when the exchange did not complete (recorded as trouble: inconclusive, never a verdict).
+pub fn serve_binary(req: &[u8]) -> Option<ServeOut> {
+    BINARY.with(|b| {
+        let b = b.borrow();
+        let s = b.as_ref()?;
+        let x = s.roundtrip(req, std::time::Duration::from_secs(30));
+        match x.outcome {
+            super::net::Outcome::Closed | super::net::Outcome::Reset(_) => Some(ServeOut { out: x.bytes, result: Ok(Ok(())), write_calls: 0, flush_calls: 0 }),
+            other => { BINARY_TROUBLE.with(|t| t.borrow_mut().push(format!("{:?} after {} response bytes", other, x.bytes.len()))); None }
+        }
+    })
+}
+
+/// `binary` cases go to the running binary when there is one, everything else (and every fallback) to Server::process on the mock transport.
+pub fn serve_routed(req: &[u8], binary: bool, entry: Entry) -> ServeOut {
+    if binary && entry == Entry::Process { if let Some(o) = serve_binary(req) { return o; } }
+    serve(req, Transport::default(), 10000, AppKind::Real, entry)
+}
+
 pub fn get(path: &str) -> Vec<u8> { format!("GET {} HTTP/1.1\r\nHost: localhost\r\n\r\n", path).into_bytes() }
